@@ -163,6 +163,7 @@ def check(ctx):
         k = rr.err_kind() if rr.err else None
         if rr.ok or k[1] != e[0] or k[2][:1] != [hx(e[1])]:
             bad = bad or (ppx.PC({"top.sv": t}), "expected %s(%s), got %s" % (e[0], e[1], rr.err or "Ok"))
+    ppx.scenario_batch(ctx, "C05", 80 if q else 1500, "c05sc")
     ctx.count("skipped_comment_after_string_D6", nd6)
     ctx.obl("search-oracle:expansion and misuse errors = independent reading of IEEE 22.5.1", "oracle", bad is None, bad[1] if bad else "")
     if bad:
